@@ -204,6 +204,29 @@ func (s decodeStream) Generate(rng *rand.Rand, n int, thorough bool) []Case {
 			}
 			cs = append(cs, decodeCase(frame, req.Expected(fo), req.Kind))
 		} else {
+			if rng.Intn(40) == 0 {
+				// a modify whose changes use every operation number (also increment, 3, and numbers that are none) and whose
+				// value lists are sometimes a bare primitive whose content looks like a BER header with a length that lies
+				lies := [][]byte{{0x04, 0x7f}, {0x04, 0x80}, {0x04, 0x81}, {0x1b, 0x82, 0x10, 0x00, 0x41}, {0x04, 0x84, 0xff, 0xff, 0xff, 0xff}, {0x04}, {}, {0x04, 0x02, 0x41}}
+				nch := 1 + rng.Intn(3)
+				var chs []*N
+				for i := 0; i < nch; i++ {
+					op := []int64{0, 1, 2, 3, 3, 4, -1, 255}[rng.Intn(8)]
+					var vals *N
+					switch rng.Intn(3) {
+					case 0:
+						vals = Set(Oct(genStr(rng)))
+					case 1:
+						vals = P(0, []int{4, 17, 16}[rng.Intn(3)], lies[rng.Intn(len(lies))])
+					default:
+						vals = Set(P(0, 4, lies[rng.Intn(len(lies))]))
+					}
+					chs = append(chs, Seq(Int(10, op), Seq(Oct(genName(rng)), vals)))
+				}
+				f := Seq(Int(2, genID(rng)), C(1, 6, Oct(genStr(rng)), Seq(chs...))).Ser()
+				cs = append(cs, decodeCase(f, "", "hostile"))
+				continue
+			}
 			f := genFrame(rng)
 			if declaresHugeLength(f) {
 				continue
